@@ -30,6 +30,9 @@ type granted struct {
 }
 
 type finding struct {
+	// mech: the key names a defect mechanism recognised from the witness itself and is used as is;
+	// otherwise the coarse class of the history is appended to the key
+	mech      bool
 	key, what string
 	a, b      *op
 	extra     map[string]interface{}
@@ -192,6 +195,25 @@ func (c *cluster) judge() {
 		return maxAt[k-1].max
 	}
 
+	// first tick at which the suffix key of a dc was seen stored
+	sufSeenAt := map[string]int64{}
+	for _, e := range sev {
+		if e.Type == "PUT" {
+			if t, ok := sufSeenAt[e.DC]; !ok || e.Tick < t {
+				sufSeenAt[e.DC] = e.Tick
+			}
+		}
+	}
+	// Mechanism B ("stale width on a member that is not the PD leader"): a local response served by
+	// a member other than the PD leader whose width is too small for a suffix that was already stored
+	// when the request began. Only the PD leader learns of a new suffix at once (it assigns it); the
+	// other members learn it on their periodic dc-location check.
+	const mechB = "stale-width-on-non-pd-leader-member"
+	const mechC = "new-dc-allocator-starts-below-global"
+	staleB := func(g *granted) bool {
+		return g.o.DC != globalDC && g.o.Target != g.o.PDLeader && int64(maxStoredBefore(g.o.Call)) >= int64(1)<<g.bits
+	}
+
 	// ---------- granted responses, field rules ----------
 	var gs []*granted
 	parts := map[string][]tsochk.Resp{}
@@ -242,9 +264,14 @@ func (c *cluster) judge() {
 		o := g.o
 		need := maxStoredBefore(o.Call)
 		if int64(need) >= int64(1)<<g.bits {
-			add(finding{key: "suffix-bits-too-narrow:" + kindOf(o.DC), a: o,
+			f := finding{key: "suffix-bits-too-narrow:" + kindOf(o.DC), a: o,
 				what:  fmt.Sprintf("a %s response reports suffix_bits=%d although suffix %d was already stored in etcd when the request began", o.DC, g.bits, need),
-				extra: map[string]interface{}{"max_suffix_stored_at_call": need}})
+				extra: map[string]interface{}{"max_suffix_stored_at_call": need}}
+			if staleB(g) {
+				f.mech, f.key = true, "suffix-bits-too-narrow:"+mechB
+				f.what += fmt.Sprintf(" (served by member m%d while the PD leader was m%d)", o.Target, o.PDLeader)
+			}
+			add(f)
 			continue // one report per response
 		}
 		if o.DC == globalDC {
@@ -265,14 +292,17 @@ func (c *cluster) judge() {
 	}
 
 	// ---------- value-set disjointness over ALL allocators ----------
-	overlapKey := func(a, b *granted) string {
+	overlapKey := func(a, b *granted) (string, bool) {
 		if a.o.DC != b.o.DC {
 			if a.bits != b.bits {
-				return "equal-timestamps-across-allocators:width-mismatch"
+				if staleB(a) || staleB(b) {
+					return "equal-timestamps-across-allocators:" + mechB, true
+				}
+				return "equal-timestamps-across-allocators:width-mismatch", false
 			}
-			return "equal-timestamps-across-allocators"
+			return "equal-timestamps-across-allocators", false
 		}
-		return "tso-ranges-overlap:" + kindOf(a.o.DC)
+		return "tso-ranges-overlap:" + kindOf(a.o.DC), false
 	}
 	reported := map[[2]int]bool{}
 	report := func(a, b *granted, how string) {
@@ -283,7 +313,8 @@ func (c *cluster) judge() {
 			return
 		}
 		reported[[2]int{a.i, b.i}] = true
-		add(finding{key: overlapKey(a, b), a: a.o, b: b.o, what: fmt.Sprintf("responses of %s and %s own a common 64-bit timestamp (%s)", a.o.DC, b.o.DC, how)})
+		k, mech := overlapKey(a, b)
+		add(finding{mech: mech, key: k, a: a.o, b: b.o, what: fmt.Sprintf("responses of %s and %s own a common 64-bit timestamp (%s)", a.o.DC, b.o.DC, how)})
 	}
 	byPhys := map[int64][]*granted{}
 	for _, g := range gs {
@@ -381,24 +412,51 @@ func (c *cluster) judge() {
 			continue
 		}
 		if f := floorCross[g]; f != nil {
-			cause := ""
-			if f.bits != g.bits && f.o.Physical == g.o.Physical {
-				cause = ":width-mismatch" // the suffix width only matters inside one physical millisecond
-			}
+			// the suffix width only matters inside one physical millisecond
+			widthCase := f.bits != g.bits && f.o.Physical == g.o.Physical
 			if isG {
 				crossPairsLG++
 				if g.lo <= f.hi {
-					add(finding{key: "global-not-above-completed-local" + cause, a: f.o, b: g.o,
-						what: fmt.Sprintf("a global timestamp (min %d) is not greater than a %s timestamp (max %d) whose request completed before the global request began", g.lo, f.o.DC, f.hi)})
+					fd := finding{key: "global-not-above-completed-local", a: f.o, b: g.o,
+						what: fmt.Sprintf("a global timestamp (min %d) is not greater than a %s timestamp (max %d) whose request completed before the global request began", g.lo, f.o.DC, f.hi)}
+					if widthCase {
+						fd.key += ":width-mismatch"
+						if staleB(f) {
+							fd.mech, fd.key = true, "global-not-above-completed-local:"+mechB
+						}
+					}
+					add(fd)
 				}
 			} else {
 				crossPairsGL++
 				if g.lo <= f.hi {
-					if fr, ok := firstRet[g.o.DC]; cause == "" && (!ok || fr > f.o.Ret) {
-						cause = ":dc-joined-later" // the dc had not granted anything yet when the global timestamp was returned
+					fd := finding{key: "local-not-above-returned-global", a: f.o, b: g.o,
+						what: fmt.Sprintf("a %s timestamp (min %d) requested after a global timestamp (max %d) had been returned is not greater than it", g.o.DC, g.lo, f.hi)}
+					fr, hasRet := firstRet[g.o.DC]
+					switch {
+					case widthCase && staleB(g):
+						fd.mech, fd.key = true, "local-not-above-returned-global:"+mechB
+						fd.what += fmt.Sprintf(" (the local response has suffix_bits=%d, served by member m%d while the PD leader was m%d; the global one has suffix_bits=%d)", g.bits, g.o.Target, g.o.PDLeader, f.bits)
+					case widthCase:
+						fd.key += ":width-mismatch"
+					case !hasRet || fr > f.o.Ret:
+						// the dc had not granted anything yet when the global timestamp was returned
+						fd.key += ":dc-joined-later"
+						// Mechanism C: the dc's suffix did not even exist when the global request began,
+						// and when its allocator serves the PD leader leads no other local allocator - the
+						// only source a new allocator's initial synchronisation (GetMaxLocalTSO) consults.
+						others := 0
+						for _, d := range g.o.PDLeads {
+							if d != g.o.DC {
+								others++
+							}
+						}
+						if seen, ok := sufSeenAt[g.o.DC]; ok && seen > f.o.Call && others == 0 {
+							fd.mech, fd.key = true, "local-not-above-returned-global:"+mechC
+							fd.what += fmt.Sprintf(" (dc %s got its suffix after the global request began; PD leader m%d led no other local allocator when this request began)", g.o.DC, g.o.PDLeader)
+						}
 					}
-					add(finding{key: "local-not-above-returned-global" + cause, a: f.o, b: g.o,
-						what: fmt.Sprintf("a %s timestamp (min %d) requested after a global timestamp (max %d) had been returned is not greater than it", g.o.DC, g.lo, f.hi)})
+					add(fd)
 				}
 			}
 		}
@@ -476,7 +534,10 @@ func (c *cluster) judge() {
 	}
 	done := map[string]bool{}
 	for _, f := range fs {
-		key := f.key + ":" + c.class()
+		key := f.key
+		if !f.mech {
+			key += ":" + c.class()
+		}
 		if done[key] {
 			continue
 		}
